@@ -357,3 +357,53 @@ def st_large(be):
 
 FACETS.append(Facet('np/large-polynomials', f_large, strategy=lambda t: st_large('np'), examples={'quick': 60, 'thorough': 3000}, shards={'quick': 2, 'thorough': 8}))
 FACETS.append(Facet('torch/large-polynomials', f_large, strategy=lambda t: st_large('torch'), examples={'quick': 20, 'thorough': 600}, shards={'quick': 1, 'thorough': 4}, backend='torch'))
+
+
+def f_wide(case):
+    """polynomials on many qubits (N up to 100) whose terms share a random base string and differ on a few chosen qubits (first, second, last...):
+    sums / differences / reduce must merge exactly the equal strings."""
+    be, N = case['be'], case['N']
+    Bk = B.backend(be)
+    rs = np.random.RandomState(case['seed'])
+    base = rs.randint(0, 4, size=N).astype(np.int64)
+    spots = sorted(set([0, 1 % N, N // 2, N - 1] + rs.randint(0, N, size=2).tolist()))
+
+    def poly(nterms, sd):
+        r2 = np.random.RandomState(sd)
+        L = np.tile(base, (nterms, 1))
+        for t in range(nterms):
+            for q in spots:
+                if r2.randint(0, 2):
+                    L[t, q] = r2.randint(0, 4)
+        K = r2.randint(0, 4, size=nterms).astype(np.int64)
+        cs = (r2.randint(-8, 9, size=nterms) + 1j * r2.randint(-8, 9, size=nterms)) / 4.0
+        return L, K, cs
+    L1, K1, c1 = poly(case['n1'], case['seed'] + 1)
+    L2, K2, c2 = poly(case['n2'], case['seed'] + 2)
+    P, Q = Bk.poly(L1, K1, c1), Bk.poly(L2, K2, c2)
+    d1, d2 = _as_dict(L1, K1, c1), _as_dict(L2, K2, c2)
+    tol = 1e-9 if be == 'np' else 1e-3
+
+    def compare(obj, want, what):
+        l, k = Bk.read_list(obj)
+        got = _as_dict(l, k, Bk.num(obj.cs))
+        want = {x: v for x, v in want.items() if abs(v) > 1e-7}
+        got = {x: v for x, v in got.items() if abs(v) > 1e-7}
+        bad = [x for x in set(got) | set(want) if abs(got.get(x, 0) - want.get(x, 0)) > tol]
+        check(not bad, '%s on %d qubits: %d of %d strings have a wrong coefficient (terms differing only on qubits %s merged or lost?)' % (
+            what, N, len(bad), len(set(got) | set(want)), spots), 'wide-' + what.split()[0])
+    compare(P.reduce(), d1, 'reduce')
+    compare(P + Q, {x: d1.get(x, 0) + d2.get(x, 0) for x in set(d1) | set(d2)}, 'sum')
+    compare(P - Q, {x: d1.get(x, 0) - d2.get(x, 0) for x in set(d1) | set(d2)}, 'difference')
+    if be == 'np':
+        compare(P + 1.5, {x: d1.get(x, 0) + (1.5 if not any(x) else 0) for x in set(d1) | {tuple([0] * N)}}, 'number-sum')
+    return {'nt': N > 32, 'labels': ['N=%d' % N]}
+
+
+def st_wide(be):
+    return st.fixed_dictionaries({'be': st.just(be), 'N': st.sampled_from([6, 20, 31, 32, 33, 34, 40, 64, 65, 100]), 'n1': st.integers(1, 12), 'n2': st.integers(1, 8),
+                                  'seed': st.integers(0, 10 ** 6)})
+
+
+FACETS.append(Facet('np/wide-polynomials', f_wide, strategy=lambda t: st_wide('np'), examples={'quick': 150, 'thorough': 6000}, shards={'quick': 1, 'thorough': 4}))
+FACETS.append(Facet('torch/wide-polynomials', f_wide, strategy=lambda t: st_wide('torch'), examples={'quick': 40, 'thorough': 1500}, backend='torch'))
